@@ -115,3 +115,61 @@ Section P.
     intros _. eauto.
   Qed.
 End P.
+
+(* ---------- life cycle ---------- *)
+Definition clife_inv (s : clife) : Prop := has_conn s = true -> has_codec s = true.
+
+Lemma clife_step_inv s o : clife_inv s -> clife_inv (fst (clife_step s o)).
+Proof. unfold clife_inv. destruct o as [[|]| |]; cbn; intros H; try discriminate; auto. Qed.
+
+Lemma clife_step_no_panic s o : clife_inv s -> snd (clife_step s o) <> LPanic.
+Proof.
+  unfold clife_inv. destruct o as [[|]| |]; cbn; intros H; try discriminate.
+  destruct (has_conn s); cbn; [rewrite H by reflexivity|]; discriminate.
+Qed.
+
+Lemma clife_run_no_panic ops : forall s, clife_inv s -> ~ In LPanic (clife_run s ops).
+Proof.
+  induction ops as [|o r IH]; intros s Hi; cbn [clife_run]; [intros []|].
+  destruct (clife_step s o) as [s' x] eqn:E. intros [Hx|Hin].
+  - apply (clife_step_no_panic s o Hi). rewrite E. exact Hx.
+  - apply (IH s'); [|exact Hin]. pose proof (clife_step_inv s o Hi) as H'. rewrite E in H'. exact H'.
+Qed.
+
+(* "connected" as the user sees it: the last Connect / Close on this client was a successful Connect *)
+Fixpoint connected_after (c : bool) (ops : list cop) : bool :=
+  match ops with
+  | [] => c
+  | CConnect Connects :: r => connected_after true r
+  | CConnect DialFails :: r | CClose :: r => connected_after false r
+  | CSend :: r => connected_after c r
+  end.
+
+Lemma clife_run_app s a b : clife_run s (a ++ b) =
+  clife_run s a ++ clife_run (fold_left (fun st o => fst (clife_step st o)) a s) b.
+Proof.
+  revert s. induction a as [|o r IH]; intros s; cbn [app clife_run fold_left]; [reflexivity|].
+  destruct (clife_step s o) as [s' x] eqn:E. cbn [fst]. rewrite IH. reflexivity.
+Qed.
+
+Lemma clife_state_after ops : forall s,
+  has_conn (fold_left (fun st o => fst (clife_step st o)) ops s) = connected_after (has_conn s) ops.
+Proof.
+  induction ops as [|o r IH]; intros s; cbn [fold_left connected_after]; [reflexivity|].
+  rewrite IH. destruct o as [[|]| |]; reflexivity.
+Qed.
+
+(* a Send after any history: "not connected" error iff not connected, otherwise the exchange - never a panic *)
+Lemma clife_send_after ops :
+  clife_run clife0 (ops ++ [CSend]) =
+  clife_run clife0 ops ++ [if connected_after false ops then LExchange else LErr].
+Proof.
+  rewrite clife_run_app. f_equal. cbn [clife_run clife_step].
+  set (s := fold_left _ ops clife0).
+  assert (Hc: has_conn s = connected_after false ops) by (unfold s; rewrite clife_state_after; reflexivity).
+  assert (Hi: clife_inv s).
+  { unfold s. clear. generalize clife0 (ltac:(unfold clife_inv; cbn; discriminate) : clife_inv clife0).
+    induction ops as [|o r IH]; intros s0 H0; cbn [fold_left]; [exact H0|]. apply IH. apply clife_step_inv. exact H0. }
+  rewrite <- Hc. unfold clife_inv in Hi. destruct (has_conn s); cbn; [rewrite Hi by reflexivity|]; reflexivity.
+Qed.
+
